@@ -15,7 +15,7 @@ ASSUMPTIONS = ["RefMIS is the oracle for evidence and per-row log-weights"]
 
 def cases(seed, tier):
     sch = Sched(seed)
-    n = 240 if tier == "quick" else 20000
+    n = 240 if tier == "quick" else 8000
     out = []
     for k in range(n):
         r = random.Random(sch.np_seed(f"c12.{k}"))
